@@ -72,3 +72,18 @@ Theorem C14_source_only_ignores_destination :
     if_matches (build_ip (ops ++ [ISrcOnly])) src dst = if_matches (build_ip (ops ++ [ISrcOnly])) src dst'.
 Proof. exact source_only_ignores_destination. Qed.
 Print Assumptions C14_source_only_ignores_destination.
+
+Theorem C14_cidr_nesting :
+  forall w n p q x, p <= q -> q <= w -> x < 2 ^ w -> n < 2 ^ w ->
+    net_contains w (n, q) x = true -> net_contains w (n, p) x = true.
+Proof. exact cidr_nesting. Qed.
+Check C14_cidr_nesting :
+  forall w n p q x, p <= q -> q <= w -> x < 2 ^ w -> n < 2 ^ w ->
+    net_contains w (n, q) x = true -> net_contains w (n, p) x = true.
+Print Assumptions C14_cidr_nesting.
+
+Theorem C14_address_list_monotone :
+  forall ops a src dst,
+    if_matches (build_ip ops) src dst = true -> if_matches (build_ip (ops ++ [IAllow a])) src dst = true.
+Proof. exact ip_filter_monotone. Qed.
+Print Assumptions C14_address_list_monotone.
